@@ -167,3 +167,99 @@ def base_histories(ctx, tag: str, N: int, nmax: int, with_pred: bool = True, fie
                 break
             cov.hit("e2e-call-ok")
         cov.traces += 1
+
+
+def smap_histories(ctx, tag: str, N: int, nmax: int):
+    """SimpleARTMAP histories (fit / partial_fit / predict_ab) on exact A-side kernels"""
+    from ..impl import SimpleARTMAP
+    cov = ctx.cov
+    lines, metas = [], []
+    for i in range(N):
+        r = gen.rng_for(ctx.seed, tag + "-smap", i)
+        cls = specs.EXACT[i % 3]
+        d, spec, n, X = gen_case(r, cls, nmax)
+        mode = r.choice(MODES)
+        eps = r.choice([0.0, 2.0 ** -20, 2.0 ** -10, 0.125])
+        y = gen.labels(r, n, r.randint(1, 4))
+        try:
+            m = SimpleARTMAP(make(spec))
+        except Exception as e:
+            ctx.issue("violation", f"SimpleARTMAP.__init__:{exc_enum(e)}", repr(e), {"spec": spec})
+            continue
+        parts = gen.compositions(r, n)
+        Xs, ys = gen.split(X, parts), gen.split(y, parts)
+        style = r.choice(["fit", "pfit", "fit+pfit", "refit"])
+        if style == "fit":
+            calls = [("fit", X, y)]
+        elif style == "pfit":
+            calls = [("pfit", a, b) for a, b in zip(Xs, ys)]
+        elif style == "fit+pfit":
+            calls = [("fit", Xs[0], ys[0])] + [("pfit", a, b) for a, b in zip(Xs[1:], ys[1:])]
+        else:
+            y2 = gen.labels(r, n, 3)
+            calls = [("fit", X, y2), ("fit", X, y)]
+        if r.random() < 0.6:
+            calls.append(("pred", X[: max(1, n // 2)], None))
+        kw = dict(match_tracking=mode, epsilon=eps)
+        snaps, failed = [], None
+        for op, B, yy in calls:
+            try:
+                with quiet():
+                    if op == "fit":
+                        m.fit(B, yy, **kw)
+                    elif op == "pfit":
+                        m.partial_fit(B, yy, **kw)
+                    else:
+                        a, b = m.predict_ab(B)
+                        snaps.append(("pred", [f"{int(p)}:{int(q)}" for p, q in zip(a, b)]))
+                        continue
+                snaps.append(("st", [np.array(w, dtype=float) for w in m.module_a.W],
+                              [int(t) for t in m.module_a.labels_], dict((int(k), int(v)) for k, v in m.map.items()),
+                              [int(t) for t in m.labels_]))
+            except Exception as e:
+                failed = (op, e)
+                break
+        rep = {"class": cls, "spec": spec, "mode": mode, "eps": eps,
+               "calls": [(o, b, None if yy is None else yy.tolist()) for o, b, yy in calls]}
+        if failed:
+            ctx.issue("violation", f"SimpleARTMAP({cls}).{failed[0]}:{exc_enum(failed[1])}",
+                      f"{failed[0]} raised {failed[1]!r} on validated data", rep)
+            continue
+        hdr = f"hist smap {KNAME[cls]} {mode} {q2s(eps)} - {kernel_hdr(cls, spec, d)}"
+        cs = " # ".join(f"{op} {mat_q(B)}" + ("" if yy is None else " " + nats(yy)) for op, B, yy in calls)
+        lines.append(hdr + " # " + cs)
+        metas.append((i, snaps, rep))
+        cov.case(("smap", cls, spec, X.tolist(), y.tolist(), mode, eps, style, parts), nontrivial=n > 1)
+    outs = run_driver(lines)
+    for line, out, (i, snaps, rep) in zip(lines, outs, metas):
+        rep = dict(rep, line=line, model=out)
+        cls = rep["class"]
+        got = out.split(" # ")
+        if out == "bad-op" or len(got) != len(snaps):
+            ctx.issue("diff", f"e2e-smap:{cls}:protocol", f"case {i}: model output {out[:80]}", rep)
+            continue
+        for k, (g, s) in enumerate(zip(got, snaps)):
+            if s[0] == "pred":
+                mp = [] if g[5:] in ("-", "") else g[5:].split(",")
+                if mp != s[1]:
+                    ctx.issue("diff", f"e2e-smap:{cls}:predict_ab", f"case {i} call {k}: impl {s[1]} model {mp}", rep)
+                    break
+                cov.hit("e2e-smap-pred")
+                continue
+            kv = parse_kv(g)
+            mm = parse_optnats(kv["map"])
+            model_map = {j: v for j, v in enumerate(mm) if v is not None}
+            if parse_nats(kv["labels"]) != s[2]:
+                ctx.issue("diff", f"e2e-smap:{cls}:labels_a", f"case {i} call {k}: impl {s[2]} model {kv['labels']}", rep)
+                break
+            if model_map != s[3]:
+                ctx.issue("diff", f"e2e-smap:{cls}:map", f"case {i} call {k}: impl {s[3]} model {model_map}", rep)
+                break
+            if parse_nats(kv["lb"]) != s[4]:
+                ctx.issue("diff", f"e2e-smap:{cls}:labels_b", f"case {i} call {k}: impl {s[4]} model {kv['lb']}", rep)
+                break
+            if not cmp_W(s[1], parse_mat_q(kv["W"])):
+                ctx.issue("diff", f"e2e-smap:{cls}:W", f"case {i} call {k}: weights differ", rep)
+                break
+            cov.hit("e2e-smap-call-ok")
+        cov.traces += 1
